@@ -37,7 +37,8 @@ def strategy(tier):
         flavor = draw(st.sampled_from(["det", "det", "prob", "full"]))
         spec = draw(gen.dataset(max_inputs=3, clim=False, flavor=flavor, core_max=3, extra_max=1, allow_drop=False,
                                 max_members=2, allow_all_missing=False))
-        name = draw(st.sampled_from(mrun.ALL))
+        # a quarter of the tables are of scores the reference model recomputes from the cases of the slice each row names
+        name = draw(st.sampled_from(mrun.ALL * 3 + ["mae", "bias", "rmse"] * (len(mrun.ALL) // 3)))
         b = draw(st.sampled_from(model.BIN_TYPES))
         nthr = draw(st.integers(1, 3))
         axis = draw(st.sampled_from(AXES))
@@ -299,6 +300,13 @@ def check_table(case, ctx):
             except ValueError:
                 ctx.fail("C12/values/unparsable", sub, "cell %r" % cell)
                 continue
+            if name in ("mae", "bias", "rmse") and axis != "threshold" and not case["acc"]:
+                # the number in a row is the score of the slice the row's leading fields name (independent reference)
+                ref = model.det_metric(name, ds.cases([("obs",), ("fcst",)], i, axis, k))
+                ctx.label("row-vs-named-slice")
+                if not cmpx.printed_ok(g, float("nan") if ref is None else ref, digits):
+                    ctx.fail("C12/values/row-vs-named-slice", sub, "-x %s row %d (%r) input %d: printed %r, the cases of that slice give %s = %r"
+                             % (axis, k, row[:nd], i, cell, name, ref))
             e = float(y[k, i])
             if math.isnan(e) or math.isinf(e):
                 ok = (math.isnan(g) and math.isnan(e)) or g == e
